@@ -162,3 +162,14 @@ def run(ctx: Ctx) -> None:
         want_ret = meth.strip("_")
         ctx.check(m is not None and ret == want_ret, "R-C16.3", f"{num.name}.{cls_name}.{meth}", m.where if m else num.rel,
                   {"defined": m is not None, "returns": ret}, f"widening {cls_name} -> {want_ret} has no conversion method of the expected name/type")
+        # R-C16.4 the lowering of the widening conversion reads the source with the source type's signedness
+        if m is not None and want_ret == "float":
+            ops = [a.value for d in m.node.decorator_list for a in ast.walk(d) if isinstance(a, ast.Constant) and isinstance(a.value, str) and a.value.startswith("convert")]
+            want_op = "convert_u" if cls_name == "nat" else "convert_s"
+            ctx.check(ops == [want_op], "R-C16.4", f"{num.name}.{cls_name}.{meth}#signedness", m.where, {"hugr_op": ops, "want": want_op},
+                      f"{cls_name} -> float reads the 64-bit value with the wrong signedness: values with the top bit set convert to a "
+                      f"different number")
+        if m is not None and cls_name == "nat" and want_ret == "int":
+            deco = [ast.unparse(d) for d in m.node.decorator_list]
+            ctx.check(any("NoopCompiler" in d for d in deco) or any("iu_to_s" in d for d in deco), "R-C16.4", f"{num.name}.nat.__int__#reinterpret", m.where, {"decorators": deco},
+                      "nat -> int must keep the bits (no-op) or use the checked unsigned-to-signed conversion")
